@@ -108,6 +108,10 @@ def scenario(ctx, p):
         W.cfg = (p["op"], well)
         if p.get("multi"):
             well1 = ids[-1] if well == ids[0] else ids[0]
+            if ctx.choose("same_cavity", [False, True]):
+                # both entries address ONE real well: the id repeated (plate) / another virtual row of the same trough column
+                kind_ = common.GEO[p["dgeo"]][0]
+                well1 = well if kind_ == "plate" else (ids[1] if well == ids[0] else ids[-2])
             x1 = ctx.real("x1", 0, common.BIG)
             inc1 = {"Y": 1.0}
             W.named = [(lab.name, well, 1, x), (lab.name, well1, 1, x1)]
@@ -243,14 +247,21 @@ def judge(ctx, p, outcome):
             ctx.prove(ctx.all_of([ctx.eq(fr[n], W.fpre[key].get(n, 0)) for n in sorted(names)]), f"C05: composition of {name}{w} changed although liquid was only removed (or the well was not addressed)")
     # exact mixing for add/dispense of a known composition
     if op in ("add", "dispense"):
-        for (rack, wid, _, x), incoming in zip(W.named, W.incoming):   # the addressed wells are distinct real wells
-            key = (rack, W.geo[rack].real_of(wid))
+        per_key = {}
+        for (rack, wid, _, x), incoming in zip(W.named, W.incoming):
+            per_key.setdefault((rack, W.geo[rack].real_of(wid)), []).append((x, incoming))
+        for key, parts in per_key.items():   # several entries may address one real well: sequential mixing = one volume-weighted mixture
             v = W.pre[key]
-            if ctx.symbolic and ctx.check(ctx_term(ctx, v + x == 0)) == "sat":
+            X = 0
+            for x, _ in parts:
+                X = X + x
+            if ctx.symbolic and ctx.check(ctx_term(ctx, v + X == 0)) == "sat":
                 ctx.reach("empty-destination")
             for n in sorted(names):
-                f0, g = W.fpre[key].get(n, 0), incoming.get(n, 0)
-                ctx.prove(ctx.implies(v + x > 0, ctx.eq(post[key][n] * (v + x), v * f0 + x * g)), f"C05: fraction of {n} after {op} differs from the volume-weighted mixture")
+                amount = v * W.fpre[key].get(n, 0)
+                for x, incoming in parts:
+                    amount = amount + x * incoming.get(n, 0)
+                ctx.prove(ctx.implies(v + X > 0, ctx.eq(post[key][n] * (v + X), amount)), f"C05: fraction of {n} after {op} differs from the volume-weighted mixture")
     # conservation of every component by transfers / distributions
     if op in ("transfer", "distribute", "seq"):
         for n in sorted(names):
